@@ -76,6 +76,19 @@ Theorem C13_drop_all_handles_from_every_state : forall cfg s,
 Proof. exact drop_from_every_state. Qed.
 Print Assumptions C13_drop_all_handles_from_every_state.
 
+(* an instance: a request whose write is parked by a transport that takes nothing and is never released, Shutdown queued
+   behind it: at write start + request timeout the request fails, the listener hears WaitAfterDisconnect, and the
+   Shutdown command is taken at that same instant *)
+Example C13_shutdown_behind_a_parked_write :
+  let cfg := {| cfg_cap := 4; cfg_res := 1 |} in
+  let rq i := CReq {| rq_id := i; rq_kind := KRead; rq_timeout := 50 |} in
+  let '(s, o) := run cfg (init 1 None 20 40)
+    [EvSubmit CEnable SFuture; EvRecv; EvConnect true; EvWritePark; EvSubmit (rq 1%nat) SFuture; EvRecv; EvSubmit CShutdown SFuture;
+     EvRecv; EvTick 49; EvTimer; EvRecv; EvTick 1; EvTimer; EvRecv] in
+  ph s = PDone /\ now s = 50 /\
+  o = [OListen LConnecting; ODial; OListen LConnected; OStamp 0 1; OComplete 1 (RErr ReIo); OEnd SeIoError; OListen (LWaitDisc 20); OListen LShutdown].
+Proof. vm_compute. repeat split. Qed.
+
 (* a disable closes an open connection and is reported as Disabled; while a request is in flight it
    waits in the queue until that transaction is over *)
 Theorem C13_disable_closes : forall cfg s q, ph s = PIdle -> queue s = CDisable :: q ->
